@@ -126,6 +126,13 @@ def compare_then_copy(ctx: Ctx, rule: str) -> None:
         ok = len(cmps) == 1 and bool(locks) and _inside(cmps[0], locks[0])
         ctx.record(rule + "l", "ORDER", fref, f"{cmp_name} is evaluated inside the lock", ok, {},
                    "" if ok else "the compare that decides about the copy is evaluated outside the lock (check-then-act race)")
+        # the copy is the only write of a plain (non-link) transfer: one that fails (missing or unreadable source, exception of the
+        # copy, killed process) leaves the destination as it was
+        if name != "download_link":
+            others = [c for c in calls_in(fn.node) if dotted(c.func) in FILE_MUTATORS and not (call_name(c) == site)]
+            ctx.record(rule + "w", "OWNER", fref, f"{name}: the single copy is the only file mutation (nothing is removed or moved beforehand)", not others,
+                       {"other_mutations": [ast.unparse(c) for c in others]},
+                       "" if not others else f"{name} also does `{ast.unparse(others[0])}`: a copy that fails after it has destroyed the {dst.split('_')[0]} data it was about to replace")
         # direction
         calls = [c for c in calls_in(fn.node) if call_name(c) == site and dotted(c.func) in FILE_MUTATORS]
         okd = len(calls) == 1 and [ast.unparse(a) for a in calls[0].args[:2]] == [src, dst]
@@ -167,6 +174,12 @@ def lock_typestate(ctx: Ctx, rule: str) -> None:
     ctx.record(rule, "TYPE", fref, "image_lock is a contextlib.contextmanager generator", ok_cm, {}, "" if ok_cm else "image_lock is no longer a context manager")
     withs = [w for w in ast.walk(fn.node) if isinstance(w, ast.With) and isinstance(w.items[0].context_expr, ast.Call)
              and call_name(w.items[0].context_expr) == "open"]
+    # POSIX record locks belong to the process and die with ANY close of the file: the lock file is opened once
+    opens = [c for c in calls_in(fn.node) if (isinstance(c.func, ast.Name) and c.func.id == "open") or dotted(c.func) in ("os.open", "io.open")]
+    ctx.record(rule + "c", "COUNT", fref, "image_lock opens a file exactly once (closing any other descriptor of the lock file would release the fcntl lock of the process)",
+               len(opens) == 1, {"opens": [ast.unparse(c) for c in opens]},
+               "" if len(opens) == 1 else f"the lock file is opened {len(opens)} times: closing the extra descriptor releases the POSIX lock while the critical section is still running")
+    withs = [w for w in withs if any(isinstance(x, ast.For) for x in w.body)] or withs
     ok_open = len(withs) == 1 and isinstance(withs[0].items[0].optional_vars, ast.Name)
     if not ok_open:
         ctx.record(rule + "o", "PAIR", fref, "descriptor from `with open(lockfile, ...) as fd`", False, {}, "the lock file descriptor is no longer scoped by `with open`")
